@@ -13,7 +13,7 @@ def all_strings(alphabet, maxlen, minlen=0):
             yield list(t)
 
 
-def evaluate(corr, results, nontrivial=None, known=None, panic_is_violation=True):
+def evaluate(corr, results, nontrivial=None, known=None, panic_is_violation=True, use_verdicts=True):
     """standard accounting: model disagreement, spec verdicts, PANIC.
     nontrivial(case, impl) -> key or None ; known(case, impl, model, verdict) -> known-finding id or None"""
     for case, impl, model, verdict in results:
@@ -30,13 +30,13 @@ def evaluate(corr, results, nontrivial=None, known=None, panic_is_violation=True
             continue
         if impl.startswith('PROTOCOL-ERROR') or model.startswith('PROTOCOL-ERROR'):
             raise RuntimeError(f'protocol error on {case}: impl={impl} model={model}')
-        if verdict.startswith('VIOLATED') or (panic_is_violation and impl == 'PANIC'):
+        if (use_verdicts and verdict.startswith('VIOLATED')) or (panic_is_violation and impl == 'PANIC'):
             corr.spec_violations.append((case, impl, verdict if verdict.startswith('VIOLATED') else 'implementation panicked'))
         if impl != model:
             corr.disagreements.append((case, impl, model))
-    if not corr.samples:
+    if len(corr.samples) < 12 and results:
         step = max(1, len(results) // 8)
-        corr.samples = [{'case': r[0], 'implementation': r[1], 'model': r[2], 'spec': r[3]} for r in results[::step][:10]]
+        corr.samples = corr.samples[:4] + [{'case': r[0], 'implementation': r[1], 'model': r[2], 'spec': r[3]} for r in results[::step][:8]]
     # report the smallest failing cases first
     corr.spec_violations.sort(key=lambda x: (len(x[0]), x[0]))
     corr.disagreements.sort(key=lambda x: (len(x[0]), x[0]))
